@@ -864,7 +864,70 @@ Definition ev_sane (cfg : ccfg) (c : cstate) (e : cevent) : Prop :=
     | Some KTcp => False
     | _ => True
     end
+  | ETcpEnd _ => True
   end.
+
+(* ------------------------------------------------------------------ *)
+(* the end of a TCP flow releases its identifier                       *)
+
+Lemma cmd_small_tcp : CMD_TCP_STOP_SENDING <= 65535 /\ CMD_TCP_EOF <= 65535.
+Proof. split; apply N.leb_le; reflexivity. Qed.
+
+Lemma alookup_adel_Some {V} ch ch0 (l : list (N * V)) v : NoDup (map fst l) ->
+  alookup N.eqb ch0 (adel N.eqb ch l) = Some v -> ch0 <> ch /\ alookup N.eqb ch0 l = Some v.
+Proof.
+  intros Hnd H. destruct (N.eq_dec ch0 ch) as [->|Hne].
+  - rewrite (alookup_adel_same N.eqb Neqb_eq) in H by exact Hnd. discriminate.
+  - rewrite (alookup_adel_other N.eqb Neqb_eq) in H by exact Hne. auto.
+Qed.
+
+Definition c_after_tcp_end (c : cstate) (ch : N) : cstate :=
+  {| c_chan := adel N.eqb ch (c_chan c); c_chani := c_chani c; c_dns := c_dns c; c_udp := c_udp c; c_nq := c_nq c |}.
+
+Lemma cinv_tcp_end cfg c ch : cinv cfg c -> alookup N.eqb ch (c_chan c) = Some KTcp -> cinv cfg (c_after_tcp_end c ch).
+Proof.
+  intros [Ndc Ndd Ndu Ich Idns Iudp Iq] Hl. unfold c_after_tcp_end.
+  constructor; cbn [c_chan c_dns c_udp c_nq c_chani].
+  - apply (adel_nodup N.eqb). exact Ndc.
+  - exact Ndd.
+  - exact Ndu.
+  - intros ch0 k H. destruct (alookup_adel_Some _ _ _ _ Ndc H) as [_ H']. exact (Ich _ _ H').
+  - intros ch0 dl H. destruct (Idns _ _ H) as (q & f & t & H'). exists q, f, t.
+    rewrite (alookup_adel_other N.eqb Neqb_eq); [exact H'|]. intros ->. congruence.
+  - intros src ch0 dl H. pose proof (Iudp _ _ _ H) as H'.
+    rewrite (alookup_adel_other N.eqb Neqb_eq); [exact H'|]. intros ->. congruence.
+  - intros ch1 ch2 q f1 t1 f2 t2 H1 H2.
+    destruct (alookup_adel_Some _ _ _ _ Ndc H1) as [_ H1']. destruct (alookup_adel_Some _ _ _ _ Ndc H2) as [_ H2'].
+    exact (Iq _ _ _ _ _ _ _ H1' H2').
+Qed.
+
+(* a finished TCP flow: TCP_STOP_SENDING + TCP_EOF on its identifier, which is free from then on (c_occ = what
+   next_channel tests); nothing else changes.  Any other identifier: no effect *)
+Lemma tcp_end_spec cfg c ch : cinv cfg c ->
+  match alookup N.eqb ch (c_chan c) with
+  | Some KTcp =>
+    tcp_end ch c = Ok (c_after_tcp_end c ch, [OFrame ch CMD_TCP_STOP_SENDING []; OFrame ch CMD_TCP_EOF []]) /\
+    cinv cfg (c_after_tcp_end c ch) /\ c_occ (c_after_tcp_end c ch) ch = false /\
+    (forall ch0, ch0 <> ch -> alookup N.eqb ch0 (c_chan (c_after_tcp_end c ch)) = alookup N.eqb ch0 (c_chan c)) /\
+    (forall ch0, c_occ (c_after_tcp_end c ch) ch0 = true -> c_occ c ch0 = true)
+  | _ => tcp_end ch c = Ok (c, [])
+  end.
+Proof.
+  intros I. unfold tcp_end. destruct (alookup N.eqb ch (c_chan c)) as [[q f t|src|]|] eqn:Hl; try reflexivity.
+  pose proof (ci_chan _ _ I _ _ Hl) as [Hr _].
+  destruct cmd_small_tcp as [S1 S2].
+  rewrite !mux_check_ok by (try assumption; try lia; cbn; lia). cbn [bind].
+  split; [reflexivity|]. split; [apply cinv_tcp_end; assumption|].
+  split; [apply amem_false_iff; apply (alookup_adel_same N.eqb Neqb_eq); apply I|].
+  split; [intros ch0 Hne; apply (alookup_adel_other N.eqb Neqb_eq); exact Hne|].
+  intros ch0 H. unfold c_occ in *. apply amem_true_iff in H. destruct H as [k H].
+  destruct (alookup_adel_Some _ _ _ _ (ci_nd_chan _ _ I) H) as [_ H']. apply amem_true_iff. exists k. exact H'.
+Qed.
+
+(* allocation succeeds whenever an identifier within reach of the cursor is free *)
+Lemma next_channel_finds maxc occ chani k : (k < TRIES)%nat -> occ (chan_iter (S k) maxc chani) = false ->
+  exists c, fst (next_channel maxc occ chani) = Some c.
+Proof. intros Hk Hf. exact (next_channel_loop_finds TRIES maxc occ chani k Hk Hf). Qed.
 
 Lemma count_q_frames q l : Forall (fun x => match x with OFrame _ _ _ => True | _ => False end) l -> count_q q l = 0%nat.
 Proof.
@@ -884,7 +947,17 @@ Proof.
   assert (ZERO : forall q o, Forall (fun x => match x with OFrame _ _ _ => True | _ => False end) o ->
             forall c', (count_q q o <= 1)%nat /\ (count_q q o = 1%nat -> in_table q c /\ ~ in_table q c')).
   { intros q o Ho c'. rewrite (count_q_frames q o Ho). split; [lia|discriminate]. }
-  destruct e as [now src dst payload|now src dst payload|now fam dst|ch data sr]; cbn [cstep ev_sane] in *.
+  destruct e as [now src dst payload|now src dst payload|now fam dst|ch data sr|tch]; cbn [cstep ev_sane] in *.
+  5:{ (* the end of a TCP flow *)
+      pose proof (tcp_end_spec cfg c tch I) as SP.
+      destruct (alookup N.eqb tch (c_chan c)) as [[q0 f0 t0|src0|]|] eqn:Hl.
+      3:{ destruct SP as (E & I' & _ & LK & _). eexists. eexists. split; [exact E|]. split; [exact I'|].
+          split; [cbn [c_after_tcp_end c_nq]; lia|]. split.
+          - intros q (ch0 & f & t & H). left. exists ch0, f, t. cbn [c_after_tcp_end c_chan] in H.
+            destruct (alookup_adel_Some _ _ _ _ (ci_nd_chan _ _ I) H) as [_ H']. exact H'.
+          - intros q. apply ZERO. repeat constructor. }
+      all: exists c, []; split; [exact SP|]; split; [exact I|]; split; [lia|]; split; [auto|];
+           intros q; apply ZERO; constructor. }
   - (* ondns *)
     destruct (cc_method cfg) eqn:Em.
     2: destruct dst as [d|].
@@ -1264,7 +1337,12 @@ Proof.
   { destruct (Hcnt q) as [Hle _]. assert (1 <= count_q q o)%nat; [|lia].
     unfold count_q. apply in_split in Hin. destruct Hin as (l1 & l2 & ->).
     rewrite filter_app, app_length. cbn [filter is_q]. rewrite N.eqb_refl. cbn [length]. lia. }
-  destruct e as [now src dst payload|now src dst payload|now fam dst|ch data sr].
+  destruct e as [now src dst payload|now src dst payload|now fam dst|ch data sr|tch].
+  5:{ (* the end of a TCP flow emits frames only *)
+      exfalso. cbn [cstep] in E. pose proof (tcp_end_spec cfg c tch I) as SP.
+      destruct (alookup N.eqb tch (c_chan c)) as [[q0 f0 t0|src0|]|];
+        [| |destruct SP as (SP & _)|]; rewrite SP in E; inversion E; subst;
+        repeat (destruct Hin as [Hin|Hin]; [discriminate|]); exact Hin. }
   1,2,3: exfalso; cbn [cstep] in E;
     destruct (Hcnt q) as [_ Hin']; destruct (Hin' Hc) as [Hi Hni];
     clear - Hin E I Hcfg He.
@@ -1309,4 +1387,70 @@ Proof.
       destruct sr; [destruct Hin as [Hin|[]]; discriminate|destruct Hin].
     + contradiction.
     + rewrite (closed_channel_spec _ cfg c ch data sr Hl) in E. inversion E; subst. destruct Hin.
+Qed.
+
+(* ------------------------------------------------------------------ *)
+(* "each captured datagram is forwarded" whenever an identifier within reach of the cursor is free -
+   in particular the identifier of a TCP flow that has finished                                      *)
+
+Lemma ondns_forwards_if_free cfg now src dst payload c k :
+  cfg_ok cfg -> cinv cfg c -> (cc_method cfg = MTproxy -> dst <> None) ->
+  (k < TRIES)%nat -> c_occ c (chan_iter (S k) (cc_maxc cfg) (c_chani c)) = false ->
+  exists ch c', ondns all_fixed cfg now src dst payload c =
+                Ok (c', OFrame ch CMD_DNS_REQ (takeN BUFSIZE payload) :: closes now c).
+Proof.
+  intros Hcfg I Hd Hk Hf. pose proof (ondns_spec cfg now src dst payload c Hcfg I Hd) as SP. cbv zeta in SP.
+  destruct (next_channel_finds _ _ _ k Hk Hf) as [ch Hch]. rewrite Hch in SP.
+  destruct SP as (_ & _ & c' & E & _). exists ch, c'. exact E.
+Qed.
+
+Lemma udp_forwards_if_free cfg now src d payload c k :
+  cfg_ok' cfg -> cinv cfg c -> cc_method cfg = MTproxy -> alookup addr_eqb src (c_udp c) = None ->
+  lenN (fst d) <= 61000 -> snd d < 2 ^ 64 ->
+  (k < TRIES)%nat -> c_occ c (chan_iter (S k) (cc_maxc cfg) (c_chani c)) = false ->
+  exists ch c' rest, onaccept_udp all_fixed cfg now src (Some d) payload c =
+     Ok (c', OFrame ch CMD_UDP_OPEN (dec (cc_family cfg)) ::
+             OFrame ch CMD_UDP_DATA (dgram_hdr d (takeN BUFSIZE payload)) :: rest).
+Proof.
+  intros Hcfg I Hm Hs Hl Hp Hk Hf. pose proof (onaccept_udp_new cfg now src d payload c Hcfg I Hm Hs Hl Hp) as SP.
+  cbv zeta in SP. destruct (next_channel_finds _ _ _ k Hk Hf) as [ch Hch]. rewrite Hch in SP.
+  destruct SP as (_ & c' & E & _). exists ch, c'. eexists. exact E.
+Qed.
+
+Lemma tcp_end_then_free cfg c tch c1 o1 :
+  cinv cfg c -> alookup N.eqb tch (c_chan c) = Some KTcp ->
+  cstep all_fixed cfg c (ETcpEnd tch) = Ok (c1, o1) ->
+  o1 = [OFrame tch CMD_TCP_STOP_SENDING []; OFrame tch CMD_TCP_EOF []] /\ cinv cfg c1 /\ c_occ c1 tch = false /\
+  c_chani c1 = c_chani c /\ c_dns c1 = c_dns c /\ c_udp c1 = c_udp c /\
+  (forall ch0, ch0 <> tch -> alookup N.eqb ch0 (c_chan c1) = alookup N.eqb ch0 (c_chan c)).
+Proof.
+  intros I Hl E. cbn [cstep] in E. pose proof (tcp_end_spec cfg c tch I) as SP. rewrite Hl in SP.
+  destruct SP as (E2 & I' & Hocc & LK & _). pose proof (eq_trans (eq_sym E) E2) as X. inversion X; subst c1 o1.
+  split; [reflexivity|]. split; [exact I'|]. split; [exact Hocc|]. split; [reflexivity|]. split; [reflexivity|].
+  split; [reflexivity|exact LK].
+Qed.
+
+Lemma query_after_tcp_end cfg c tch c1 o1 now src dst payload k :
+  cfg_ok cfg -> cinv cfg c -> alookup N.eqb tch (c_chan c) = Some KTcp ->
+  cstep all_fixed cfg c (ETcpEnd tch) = Ok (c1, o1) ->
+  (cc_method cfg = MTproxy -> dst <> None) ->
+  (k < TRIES)%nat -> chan_iter (S k) (cc_maxc cfg) (c_chani c1) = tch ->
+  exists ch c', ondns all_fixed cfg now src dst payload c1 =
+                Ok (c', OFrame ch CMD_DNS_REQ (takeN BUFSIZE payload) :: closes now c1).
+Proof.
+  intros Hcfg I Hl E Hd Hk Hit. destruct (tcp_end_then_free cfg c tch c1 o1 I Hl E) as (_ & I1 & Hocc & _).
+  apply (ondns_forwards_if_free cfg now src dst payload c1 k Hcfg I1 Hd Hk). rewrite Hit. exact Hocc.
+Qed.
+
+Lemma datagram_after_tcp_end cfg c tch c1 o1 now src d payload k :
+  cfg_ok' cfg -> cinv cfg c -> alookup N.eqb tch (c_chan c) = Some KTcp ->
+  cstep all_fixed cfg c (ETcpEnd tch) = Ok (c1, o1) ->
+  cc_method cfg = MTproxy -> alookup addr_eqb src (c_udp c1) = None -> lenN (fst d) <= 61000 -> snd d < 2 ^ 64 ->
+  (k < TRIES)%nat -> chan_iter (S k) (cc_maxc cfg) (c_chani c1) = tch ->
+  exists ch c' rest, onaccept_udp all_fixed cfg now src (Some d) payload c1 =
+     Ok (c', OFrame ch CMD_UDP_OPEN (dec (cc_family cfg)) ::
+             OFrame ch CMD_UDP_DATA (dgram_hdr d (takeN BUFSIZE payload)) :: rest).
+Proof.
+  intros Hcfg I Hl E Hm Hs Hlen Hp Hk Hit. destruct (tcp_end_then_free cfg c tch c1 o1 I Hl E) as (_ & I1 & Hocc & _).
+  apply (udp_forwards_if_free cfg now src d payload c1 k Hcfg I1 Hm Hs Hlen Hp Hk). rewrite Hit. exact Hocc.
 Qed.
